@@ -525,8 +525,9 @@ class _DEManager(Manager):
 
 
 def _de_gen(rng, env, state):
-  per_thread = True if not env.process_ok else rng.random() < 0.6
-  if env.process_ok and rng.random() < 0.04:
+  process_ok = getattr(env, 'process_de_ok', env.process_ok)
+  per_thread = True if not process_ok else rng.random() < 0.6
+  if process_ok and rng.random() < 0.04:
     return {'fn': 'not-callable', 'per_thread': per_thread, 'yield': 0,
             'exit': None, 'invalid': True}
   return {'fn': rng.choice(['f1', 'f2', 'f1', 'f2', None]),
